@@ -737,7 +737,8 @@ PROPS["C14"] = dict(
           functions=["<Fen as TryFromNotation<State>>::try_from_notation (after Regex::captures)"], timeout=2400),
         K("uci", "c14_uci_go_args_total", kind="bounded", bound="<= 3 argument tokens: keyword or 2 arbitrary ASCII bytes, value of <= 2 ASCII bytes, 1 more byte",
           desc="the argument parser of the `go` arm (block extracted verbatim from Client::exec, println! bound to a buffer): total on arbitrary tokens; "
-          "`depth N` / `movetime N` with decimal N set exactly those limits", functions=["Client::exec, `go` argument parser (extracted)"], timeout=2400),
+          "`depth N` / `movetime N` with decimal N set exactly those limits", functions=["Client::exec, `go` argument parser (extracted)"], timeout=3000,
+          tier="experimental", heavy=True),
         K("uci", "c14_uci_token_total", desc="the UCI move-token reader (extracted verbatim) is total on every string of <= 8 "
           "bytes, ASCII plus one arbitrary wide char anywhere (it inspects bytes 0..4 and the 5th char only)", functions=["Client::exec move-token closure (extracted)"],
           timeout=1500),
